@@ -1387,4 +1387,83 @@ theorem separateSO_isSeparated (long : Bool) : ∀ (n : Nat) (args : List Str), 
             simp only [beq_self_eq_true, afterSO, if_true]
             exact ih rest (by simp at hl; omega)
 
+/-! ### the command line: `--name=ARG` and `--name ARG` -/
+
+theorem nonShell_arg (name : Str) (ctor : Str → ShLong) (h : nonShell name = some (true, ctor)) :
+    ctor = ShLong.profile ∨ ctor = ShLong.rcfile := by
+  unfold nonShell at h
+  split at h
+  · simp at h; exact Or.inl h.symm
+  · split at h
+    · simp at h; exact Or.inr h.symm
+    · split at h
+      · simp at h
+      · split at h
+        · simp at h
+        · split at h
+          · simp at h
+          · split at h
+            · simp at h
+            · cases h
+
+theorem takeWhile_notEqC_append (n t : Str) (hn : '=' ∉ n) (ht : t = [] ∨ t.head? = some '=') :
+    (n ++ t).takeWhile notEqC = n ∧ (n ++ t).dropWhile notEqC = t := by
+  induction n with
+  | nil =>
+    rcases ht with rfl | ht
+    · simp
+    · cases t with
+      | nil => simp
+      | cons c t' => simp at ht; subst ht; simp [notEqC]
+  | cons c n ih =>
+    have hc : c ≠ '=' := fun h => hn (by simp [h])
+    have hn' : '=' ∉ n := fun h => hn (by simp [h])
+    obtain ⟨h1, h2⟩ := ih hn'
+    have : notEqC c = true := by simp [notEqC, hc]
+    simp [this, h1, h2]
+
+/-- one step of the option loop: `--name=ARG` consumes one argument, `--name ARG` two, to the same effect -/
+theorem shStep_long_eq_arg (nm : Names) (p : Bool) (name arg : Str) (ctor : Str → ShLong) (next : Option Str)
+    (hname : name ≠ []) (heq : '=' ∉ name) (hctor : nonShell name = some (true, ctor))
+    (h1 : nm.parseLong (name ++ '=' :: arg) = .noSuch) (h2 : nm.parseLong name = .noSuch) :
+    shStep nm p ('-' :: '-' :: (name ++ '=' :: arg)) next =
+      (if p then ShStep.fail .nonPortableLong else ShStep.go (applyLong (ctor arg)) false p) ∧
+    shStep nm p ('-' :: '-' :: name) (some arg) =
+      (if p then ShStep.fail .nonPortableLong else ShStep.go (applyLong (ctor arg)) true p) := by
+  obtain ⟨c, name', rfl⟩ : ∃ c name', name = c :: name' := by
+    cases name with
+    | nil => exact absurd rfl hname
+    | cons c n => exact ⟨c, n, rfl⟩
+  have hgo : ∀ t p', ShStep.ofLong (.ok (ctor arg, t, p')) = ShStep.go (applyLong (ctor arg)) t p' := by
+    intro t p'
+    rcases nonShell_arg _ ctor hctor with rfl | rfl <;> rfl
+  obtain ⟨ta, da⟩ := takeWhile_notEqC_append (c :: name') ('=' :: arg) heq (Or.inr rfl)
+  obtain ⟨tb, db⟩ := takeWhile_notEqC_append (c :: name') [] heq (Or.inl rfl)
+  rw [List.append_nil] at tb db
+  constructor
+  · have hs : shortSign ('-' :: '-' :: (c :: name' ++ '=' :: arg)) = none := by simp [shortSign]
+    have hl : isLongArg ('-' :: '-' :: (c :: name' ++ '=' :: arg)) = some false := by simp [isLongArg]
+    simp only [shStep, hs, hl, List.drop_succ_cons, List.drop_zero, shLong, ta, da, hctor, h1]
+    cases p with
+    | true => simp [ShStep.ofLong]
+    | false => simp only [Bool.false_eq_true, if_false, List.isEmpty_cons, Bool.not_false, if_true, List.drop_succ_cons,
+        List.drop_zero]; exact hgo false false
+  · have hs : shortSign ('-' :: '-' :: c :: name') = none := by simp [shortSign]
+    have hl : isLongArg ('-' :: '-' :: c :: name') = some false := by simp [isLongArg]
+    simp only [shStep, hs, hl, List.drop_succ_cons, List.drop_zero, shLong, tb, db, hctor, h2]
+    cases p with
+    | true => simp [ShStep.ofLong]
+    | false => simp only [Bool.false_eq_true, if_false, List.isEmpty_nil, Bool.not_true, if_true]; exact hgo true false
+
+theorem shLoop_long_eq_arg (nm : Names) (p : Bool) (r : Run) (name arg : Str) (ctor : Str → ShLong) (rest : List Str)
+    (hname : name ≠ []) (heq : '=' ∉ name) (hctor : nonShell name = some (true, ctor))
+    (h1 : nm.parseLong (name ++ '=' :: arg) = .noSuch) (h2 : nm.parseLong name = .noSuch) :
+    shLoop nm p r (('-' :: '-' :: (name ++ '=' :: arg)) :: rest) =
+      shLoop nm p r (('-' :: '-' :: name) :: arg :: rest) := by
+  obtain ⟨ha, hb⟩ := shStep_long_eq_arg nm p name arg ctor rest.head? hname heq hctor h1 h2
+  rw [shLoop_cons, shLoop_cons, ha]
+  simp only [List.head?_cons]
+  rw [hb]
+  cases p <;> simp
+
 end YashModel.Args.Bespoke
